@@ -14,6 +14,8 @@ import (
 	"encoding/json"
 	"fmt"
 	"math/big"
+
+	ethcmn "github.com/ethereum/go-ethereum/common"
 	"os"
 	"strconv"
 	"strings"
@@ -28,6 +30,7 @@ import (
 	"verif/hist"
 	"verif/run"
 	"verif/sim"
+	"verif/txgen"
 )
 
 func TestMain(m *testing.M) {
@@ -49,6 +52,11 @@ type Case struct {
 	Orig []byte        `json:"orig"`                // the executed transaction
 	Gap  int           `json:"gap"`                 // the first resubmission is delivered Gap blocks after the execution (1..10)
 	Encs []Enc         `json:"resubmissions"`
+	// OLVM only: the original spends the sender's whole balance (it ends at exactly zero); Refund, a native
+	// SEND to the sender, is delivered to subject and twin in the block after the execution: the account
+	// nonce is then the only thing between the old transaction and a second execution
+	Drain  bool   `json:"olvm_drain,omitempty"`
+	Refund []byte `json:"refund_tx,omitempty"`
 }
 
 type violation struct {
@@ -334,6 +342,15 @@ func runOn(w *hist.World, c *Case) (*caseRes, *violation) {
 	r2.Close()
 	w.R = w.R[:2]
 
+	if len(c.Refund) > 0 {
+		_, rr := w.RunBlock(sim.BlockSpec{GapSecs: 5, Txs: [][]byte{c.Refund}})
+		if v := panicked("the block refunding the drained sender", nil); v != nil {
+			return res, v
+		}
+		if len(rr[0].Txs) == 1 && rr[0].Txs[0].Code == 0 {
+			res.kind += "+drained-refunded"
+		}
+	}
 	for i := 1; i < c.Gap; i++ {
 		w.RunBlock(sim.BlockSpec{GapSecs: 5})
 	}
@@ -397,7 +414,7 @@ func record(h *run.H, r *caseRes) {
 	}
 	for _, e := range r.encs {
 		key := ""
-		if r.visible && e.differ && (e.class == "noncanonical" || e.class == "olvm") {
+		if r.visible && e.differ && (e.class == "noncanonical" || e.class == "olvm" || e.class == "siglist") {
 			key = r.kind + "/" + e.op
 		}
 		var sample interface{}
@@ -409,6 +426,10 @@ func record(h *run.H, r *caseRes) {
 }
 
 var noted = map[string]bool{}
+
+// foreignSigner is an account outside every generated universe: its signature over the original's
+// signed part is valid, it is just nobody the transaction requires.
+var foreignSigner = sim.NewEdUser("c05-foreign", "c05-foreign-signer")
 
 type rapidChooser struct{ u *hist.U }
 
@@ -432,6 +453,10 @@ func buildEncs(kind string, orig []byte, c chooser, excl func(string) bool) ([]E
 		for _, op := range olvmOpNames {
 			out = append(out, Enc{op, olvmReencode(tree, op, c)})
 		}
+	} else {
+		for _, op := range sigListOps {
+			out = append(out, Enc{op, sigListReencode(orig, op, foreignSigner)})
+		}
 	}
 	// rotate so that every operator is sometimes the first resubmission (exactly Gap blocks later)
 	if len(out) > 1 {
@@ -444,7 +469,7 @@ func buildEncs(kind string, orig []byte, c chooser, excl func(string) bool) ([]E
 	return out, nil
 }
 
-const rule = "for each of the 33 transaction kinds (OLVM: transfers and message calls, including calls that fail inside the EVM by revert / out of gas and are committed as executed): a well-formed transaction executed in a block of a warmed-up state, then resubmitted 1..10 blocks later (occasionally 40..120; further resubmissions in the following blocks, the byte-identical one twice) byte-identical and under 18 re-encoding operators that keep the parsed signed content (whitespace, key order, duplicate keys, unknown members, key case, key / string escapes, base64 line breaks and trailing bits, numeric forms; OLVM additionally 8 inner-payload / memo / signer-entry variants of the same EIP-155 content with a canonical outer encoding); every resubmission is classified with the parser (equivalent or not); oracle: CheckTx rejects and the block carrying it leaves the committed state equal to the twin's; non-trivial = the original succeeded with an effect beyond the fee (probe replica) and the resubmitted bytes differ from the original; distinct by (kind, operator)"
+const rule = "for each of the 33 transaction kinds (OLVM: transfers and message calls, including calls that fail inside the EVM by revert / out of gas and are committed as executed): a well-formed transaction executed in a block of a warmed-up state, then resubmitted 1..10 blocks later (occasionally 40..120; further resubmissions in the following blocks, the byte-identical one twice) byte-identical and under 18 re-encoding operators that keep the parsed signed content (whitespace, key order, duplicate keys, unknown members, key case, key / string escapes, base64 line breaks and trailing bits, numeric forms) and 4 operators that extend the unsigned signature list in a canonical encoding (copy of the first entry, junk, a valid signature of a foreign key, an empty entry; OLVM additionally 8 inner-payload / memo / signer-entry variants of the same EIP-155 content with a canonical outer encoding); every resubmission is classified with the parser (equivalent or not); oracle: CheckTx rejects and the block carrying it leaves the committed state equal to the twin's; non-trivial = the original succeeded with an effect beyond the fee (probe replica) and the resubmitted bytes differ from the original; distinct by (kind, operator)"
 
 func TestC05(t *testing.T) {
 	h := run.Start(t, "C05")
@@ -499,6 +524,19 @@ func TestC05(t *testing.T) {
 				tx = f.MakeOLVMCall(c.Call, c.Gapn, byte(1+u.N(200, "arg")))
 			} else if c.Gapn > 0 {
 				tx = f.MakeOLVM(c.Gapn, int64(1000+u.N(1000, "value")))
+			} else if u.N(3, "drain") == 0 {
+				// a plain transfer costs exactly 21000 gas: value = balance - 21000 x price leaves exactly zero
+				price := big.NewInt(1000000000)
+				bal := w.Bal(f.E.OLAddr(), "OLT")
+				val := new(big.Int).Sub(bal, new(big.Int).Mul(big.NewInt(21000), price))
+				if val.Sign() > 0 {
+					to := ethcmn.BytesToAddress(f.B.Addr)
+					nonce := w.OlvmNext[f.E.Name]
+					tx = txgen.OLVM(f.E, txgen.OLVMArgs{ChainID: w.P.ChainID, Nonce: nonce, To: &to, Value: val,
+						Fee: txgen.Fee{Price: price, Cur: "OLT", Gas: 21000}})
+					c.Drain = true
+					c.Refund = txgen.Send(f.A, f.A.Addr, f.E.OLAddr(), txgen.Amt("OLT", new(big.Int).Mul(big.NewInt(int64(50+u.N(100, "refund"))), big.NewInt(1000000000000000000))), w.Fee, "c05-refund").Bytes
+				}
 			}
 		}
 		c.Orig = tx.Bytes
